@@ -102,7 +102,10 @@ def grid_doc(layout_cls, flow, count, kids):
 
 
 def parse_array(s):
-    return [int(x) for x in s.split(",")] if s is not None else None
+    try:
+        return [int(x) for x in s.split(",")] if s is not None else None
+    except ValueError:
+        return ["malformed:" + s]       # agrees with nothing
 
 
 def arrays_agree(attr, explicit, default):
@@ -400,6 +403,41 @@ def item_kind_jobs():
                     if span != (None, None) and lay != "QGridLayout":
                         continue
                     yield (lay, kind, al, span)
+    # every way of writing a union of up to four flags (grouping, order): the item gets exactly those flags
+    for lay in ("QGridLayout", "QVBoxLayout"):
+        for al in ALIGN_SPELLINGS:
+            yield (lay, "QLabel", al, (None, None))
+
+
+def _groupings(flags):
+    """Every full parenthesisation of the flags in the given order."""
+    if len(flags) == 1:
+        return [flags[0]]
+    out = []
+    for k in range(1, len(flags)):
+        for l in _groupings(flags[:k]):
+            for r in _groupings(flags[k:]):
+                out.append(f"({l} | {r})")
+    return out
+
+
+def _align_spellings():
+    fl = ["Qt.AlignLeft", "Qt.AlignTop", "Qt.AlignAbsolute", "Qt.AlignBaseline"]
+    out = []
+    for n in (2, 3, 4):
+        for perm in itertools.permutations(fl[:n]):
+            for g in _groupings(list(perm)):
+                out.append(g[1:-1])        # the outermost pair of parentheses is dropped
+    out.append("(Qt.AlignLeft | Qt.AlignTop)")
+    return sorted(set(out))
+
+
+ALIGN_SPELLINGS = _align_spellings()
+
+
+def align_flags(al):
+    import re
+    return sorted(x.replace("Qt.", "Qt::") for x in re.findall(r"Qt\.\w+", al))
 
 
 def judge_item_kind(t, vd, cid, lay_cls, kind, al, span):
@@ -433,10 +471,11 @@ def judge_item_kind(t, vd, cid, lay_cls, kind, al, span):
         t.violation("item-count", dict(case, problem="child c1 is not inside an <item>"))
         return
     t.inc("cells_checked")
-    want = al.replace("Qt.", "Qt::").replace(" | ", "|") if al is not None else None
-    if it.attrs.get("alignment") != want:
+    want = align_flags(al) if al is not None else None
+    got = it.attrs.get("alignment")
+    if (sorted(got.split("|")) if got is not None else None) != want:
         t.violation("alignment-not-copied" if want is not None else "alignment-invented",
-                    dict(case, expected=want, got=it.attrs.get("alignment")))
+                    dict(case, expected=want, got=got))
     for attr, v in (("rowspan", span[0]), ("colspan", span[1])):
         if it.attrs.get(attr) != (str(v) if v is not None else None):
             t.violation(f"span-not-copied:{attr}", dict(case, expected=v, got=it.attrs.get(attr)))
